@@ -32,7 +32,9 @@ Encodings(n) ==
          \cup (IF n > 300 THEN {[fr |-> "chunked", cs |-> <<255, n - 255>>]} ELSE {})
 
 Rep(s, c) == [k \in 1 .. c |-> s]
-P(reads, all) == [reads |-> reads, all |-> all]
+\* again: after the stream reported EOF the handler reads on (ReadAll followed by a drain, a retrying reader ...):
+\* every further read must report EOF again at once, without bytes
+P(reads, all) == [reads |-> reads, all |-> all, again |-> IF all \/ Len(reads) % 2 = 1 THEN 2 ELSE 0]
 
 \* consumption programs for a body of length n
 Programs(n) ==
